@@ -35,6 +35,7 @@ RULE = (
     'types, or bytes with a backslash, or a policy document with a disapproved pyref.'
 )
 RULE += (' ' + 'Also generated: a class and a function whose snake-cased names collide (DataLoader / data_loader) in one document.')
+RULE += (' ' + 'Rounds 3-5: policy documents also through ZlibJSONSerializer (optionally after a first decode under an allow-all policy); dict-based class with a __new__ of its own; inherited classmethods reached through a subclass; three rejected register_constant calls with hash-equal unserializable values.')
 ASSUMPTIONS = [
     "json.loads is the documented parser: Python's NaN/Infinity tokens are admitted",
     'a dump that raises is a rejection (lossless-or-loud); only returned documents are judged',
